@@ -541,6 +541,7 @@ def r3(run: Run, src, g, em, rt):
 
 
 def run(run: Run):
+    from .common import cached_guard as _cached_guard
     src = get_source()
     g = get_grammar(src)
     em = get_emission(src)
@@ -577,8 +578,8 @@ def run(run: Run):
             run.extra['c16_structural_skipped'] = True
     else:
         run.guard('C16.R1', r1_r2_r5, run, rt)
-    run.guard('C16.R3', r3, run, src, g, em, rt)
-    run.guard('C16.R4', check_plumbing, run, 'C16.R4', src, em, rt, FUNCS)
+    _cached_guard(run, 'C16.R3', r3, src, g, em, rt)
+    _cached_guard(run, 'C16.R4', check_plumbing, 'C16.R4', src, em, rt, FUNCS)
     # a function result depends on its arguments only: no runtime helper keeps results or other state between calls
     from .common import borrow as _borrow
     from . import c08 as _c08
@@ -590,7 +591,7 @@ def run(run: Run):
     _borrow(run, 'C16.R6', _c08.r1, _src, _grt(_src), _gcg(_src))
     _borrow(run, 'C16.R6', _c08.r4, _src, _grt(_src))
     run.rule('C16.R7', 'the decimal context of quantize holds every result (integer digits + requested decimals)')
-    run.guard('C16.R7', r7_quantize_context, run, rt)
+    _cached_guard(run, 'C16.R7', r7_quantize_context, rt)
     run.floor('C16.R7', 2)
     run.floor('C16.R6', 50)
     run.floor('C16.R1', 12)
